@@ -26,7 +26,7 @@ const KEYWORDS: [&str; 10] = ["als", "anders", "antwoord", "functie", "zolang", 
 const OPERATORS: [&str; 25] = [
     "==", "!=", "<=", ">=", "&&", "||", "=", ";", ",", ".", "(", ")", "{", "}", "[", "]", "!", "<", ">", "-", "+", "*", "/", "^", "%",
 ];
-const IDENTS: [&str; 9] = ["a", "alsof", "stelsel", "_als", "als1", "é", "jaa", "x_1", "Als"];
+const IDENTS: [&str; 12] = ["a", "alsof", "stelsel", "_als", "als1", "é", "jaa", "x_1", "Als", "aאב", "אב", "naamé"];
 const NUMBERS: [&str; 5] = ["1", "007", "10", "1.5", "0.0"];
 const STRINGS: [&str; 3] = ["\"s\"", "\"\"", "\"a b // c\""];
 
@@ -291,7 +291,7 @@ fn run(sh: &mut Shard) {
         }
     }
     // (1) sequences with every separator choice
-    let seps_all = ["", " ", "\n", " // c\n", " //é€😀\n"];
+    let seps_all = ["", " ", "\n", " // c\n", " //é€😀\n", "\u{2028}", "\u{85}\u{200E}"];
     let maxlen = 3;
     let core: Vec<&str> = if tier == Tier::Quick { vec![] } else { vec!["als", "a", "alsof", "1", "1.5", "\"s\"", "=", "==", "<", "<=", "!", "!=", "/", "-", "(", ")", ".", "&&", ";", "ja"] };
     let mut plans: Vec<(Vec<&str>, usize)> = vec![(vocab.clone(), maxlen)];
